@@ -114,7 +114,7 @@ pub fn gen_scenario(seed: u64, fixtures: &[String]) -> Scenario {
         while script.len() < ncalls {
             let doc = if rng.chance(0.6) { hot_doc } else { rng.below(ndocs) };
             let cfg = if rng.chance(0.4) { hot_cfg } else { gen_cfg(&mut rng) };
-            let op = match rng.weighted(&[4, 4, 1, 2, 1]) {
+            let op = match rng.weighted(&[4, 4, 2, 2, 1]) {
                 0 => Op::Content,
                 1 => Op::Source,
                 2 => Op::Inspect,
@@ -124,7 +124,8 @@ pub fn gen_scenario(seed: u64, fixtures: &[String]) -> Scenario {
                 }
                 _ => Op::Width,
             };
-            let call = Call { op, doc, cfg, feed_prev: false, via_clone: rng.chance(0.4) };
+            let nest = if matches!(op, Op::Inspect) && rng.chance(0.6) { Some((rng.below(ndocs), if rng.chance(0.5) { cfg } else { gen_cfg(&mut rng) })) } else { None };
+            let call = Call { op, doc, cfg, feed_prev: false, via_clone: rng.chance(0.4), nest };
             match rng.below(10) {
                 // the same operation twice in a row
                 0 | 1 => {
